@@ -251,6 +251,11 @@ func runC18(k *kernel.K) {
 			e.spec.Header = []wire.HF{{Name: "Range", Value: fmt.Sprintf("bytes=%d-", e.rangeStart)}}
 			e.body = full[e.rangeStart:]
 			e.resp = &RespSpec{Status: 206, Framing: "cl", Body: e.body, Header: []wire.HF{{Name: "Content-Range", Value: fmt.Sprintf("bytes %d-%d/%d", e.rangeStart, e.total-1, e.total)}}}
+			if w.Chance(1, 4) {
+				// the origin does not know (or tell) the complete length: "bytes a-b/*"
+				e.resp.Header[0].Value = fmt.Sprintf("bytes %d-%d/*", e.rangeStart, e.total-1)
+				k.Probe("content_range_unknown_complete_length")
+			}
 		} else {
 			e.body = full
 			e.resp = &RespSpec{Status: 200, Framing: "cl", Body: e.body}
